@@ -63,8 +63,18 @@ def build_table(path, maxlen):
 
 
 def rand_series(rng, n):
-    kind = rng.integers(12)
-    if kind == 11:       # records in extremely small units: products of neighbouring differences underflow (their signs do not)
+    kind = rng.integers(13)
+    if kind == 12:       # a swing across almost the whole double range (its difference overflows) next to movements of 1e-16 and single ulps
+        x = rng.standard_normal(n) * 10.0 ** rng.choice([-16.0, -12.0, -300.0, 0.0])
+        j = int(rng.integers(0, max(1, n - 1)))
+        big = float(rng.choice([1.5e308, 1.0e308, 1.7e308]))
+        x[j] = big
+        if j + 1 < n:
+            x[j + 1] = -big
+        if n > 4:
+            k_ = (j + 3) % n
+            x[k_] = np.nextafter(x[k_ - 1], np.inf) if abs(x[k_ - 1]) < 1e300 else 0.0
+    elif kind == 11:       # records in extremely small units: products of neighbouring differences underflow (their signs do not)
         base = [rng.standard_normal(n), np.repeat(rng.integers(-3, 4, size=n), rng.integers(1, 4, size=n))[:n].astype(float)][int(rng.integers(2))]
         x = base * float(rng.choice([1e-170, 1e-200, 2.0 ** -600, 1e-300, 3e-162]))
     elif kind == 10:       # small wiggles next to a single enormous excursion (steps spanning more than 160 decades in ONE series)
